@@ -157,6 +157,9 @@ func run() int {
 		return fail("reason=overlay %v", err)
 	}
 	if *replayFile != "" {
+		if abs, err := filepath.Abs(*replayFile); err == nil {
+			*replayFile = abs
+		}
 		return replayOnly(ovPaths)
 	}
 	names, dirs := selectHarnesses(ov)
